@@ -70,6 +70,12 @@ func TestC03Aliasing(t *testing.T) {
 	if !selfTest(t) {
 		return
 	}
+	for _, im := range pkeImpls() {
+		im := im
+		t.Run(im.name, func(t *testing.T) {
+			vlib.Check(t, vlib.N(80, 300), func(t *rapid.T) { pkeOverlapCase(t, im) })
+		})
+	}
 	for _, im := range impls() {
 		im := im
 		t.Run(im.name, func(t *testing.T) {
@@ -441,6 +447,149 @@ func retainCase(t *rapid.T, im impl) {
 		return
 	}
 	vlib.NonTrivial(sub, "buffers-overwritten-then-compared", seedA, seedB, m, []byte(source), []byte(clobber))
+}
+
+// pkeOverlapCase: the K-PKE API (pke/kyber/kyber*) with inputs located inside
+// the output buffer, and with key encodings overwritten after Unpack. The
+// expected values are computed by the reference from copies taken before the
+// call. Confirmed on the unchanged tree: EncryptTo and DecryptTo consume pt,
+// seed and ct completely before the first output byte is written.
+func pkeOverlapCase(t *rapid.T, im pkeImpl) {
+	sub := "pke-overlap/" + im.name
+	flavour := rapid.SampledFrom([]string{"kyber", "mlkem"}).Draw(t, "flavour")
+	p := mlkem.Get(im.k, flavour == "kyber")
+	d := vlib.EdgeBytes(t, 32, "d")
+	m := vlib.EdgeBytes(t, 32, "m")
+	r := vlib.EdgeBytes(t, 32, "r")
+	ek, dk := p.PKEKeyGen(d)
+	c := p.PKEEncrypt(ek, m, r)
+	n := p.CtSize()
+	uLen := 32 * p.Du * p.K
+	vlib.Eval(sub)
+	offs := []int{0, 0, 1, 31, 32, uLen / 2, uLen - 32, uLen - 16, uLen, n - 64, n - 33, n - 32, n - 32}
+	kind := rapid.SampledFrom([]string{"encrypt-pt-in-ct", "encrypt-pt-in-ct", "encrypt-seed-in-ct", "encrypt-pt-and-seed-in-ct", "encrypt-pt-is-seed-buffer", "decrypt-pt-in-ct", "decrypt-pt-in-ct", "decrypt-pt-in-altered-ct", "unpack-then-overwrite", "pack-prefilled"}).Draw(t, "kind")
+	off := rapid.SampledFrom(offs).Draw(t, "off")
+	vlib.Class(sub, "kind="+kind)
+	region := "v-region"
+	if off+32 <= uLen {
+		region = "u-region"
+	} else if off < uLen {
+		region = "u/v-boundary"
+	}
+	desc := fmt.Sprintf("d %x m %x r %x (%s) %s offset %d (%s)", d, m, r, flavour, kind, off, region)
+	var pk pkePub
+	var sk pkePriv
+	fromBytes := rapid.Bool().Draw(t, "fromBytes")
+	if !catchRep(t, "C03/panic/"+im.name+"/pke-overlap", desc, func() {
+		if fromBytes {
+			pk, sk = im.unpackPK(ek), im.unpackSK(dk)
+		} else if flavour == "kyber" {
+			pk, sk = im.newKey(d)
+		} else {
+			pk, sk = im.newKeyMLKEM(d)
+		}
+	}) {
+		return
+	}
+	fail := func(what string, got, want []byte) {
+		vlib.Report(t, "C03/pke-overlap/"+im.name+"/"+kind, fmt.Sprintf("%s: %s differs from the reference computed from copies of the inputs (first differing byte %d of %d)", desc, what, firstDiff(got, want), len(want)))
+	}
+	switch kind {
+	case "encrypt-pt-in-ct", "encrypt-seed-in-ct", "encrypt-pt-and-seed-in-ct":
+		buf := make([]byte, n)
+		vlib.FillRandom(t, buf, "prefill")
+		pt, seed := append([]byte{}, m...), append([]byte{}, r...)
+		off2 := off + 32
+		if off2+32 > n {
+			off2 = off - 32
+		}
+		switch kind {
+		case "encrypt-pt-in-ct":
+			copy(buf[off:], m)
+			pt = buf[off : off+32 : off+32]
+		case "encrypt-seed-in-ct":
+			copy(buf[off:], r)
+			seed = buf[off : off+32 : off+32]
+		default:
+			copy(buf[off:], m)
+			copy(buf[off2:], r)
+			pt, seed = buf[off:off+32:off+32], buf[off2:off2+32:off2+32]
+		}
+		if !catchRep(t, "C03/panic/"+im.name+"/pke-overlap", desc, func() { pk.EncryptTo(buf, pt, seed) }) {
+			return
+		}
+		if !bytes.Equal(buf, c) {
+			fail("EncryptTo ciphertext", buf, c)
+			return
+		}
+		vlib.Class(sub, "encrypt-input-in="+region)
+	case "encrypt-pt-is-seed-buffer":
+		// pt and seed are the same 32 bytes (m = r): both are inputs only
+		want := p.PKEEncrypt(ek, m, m)
+		one := append([]byte{}, m...)
+		ct := make([]byte, n)
+		if !catchRep(t, "C03/panic/"+im.name+"/pke-overlap", desc, func() { pk.EncryptTo(ct, one, one) }) {
+			return
+		}
+		if !bytes.Equal(ct, want) || !bytes.Equal(one, m) {
+			fail("EncryptTo ciphertext (or the input buffer was modified)", ct, want)
+			return
+		}
+	case "decrypt-pt-in-ct", "decrypt-pt-in-altered-ct":
+		buf := append([]byte{}, c...)
+		if kind == "decrypt-pt-in-altered-ct" {
+			kindCt := rapid.SampledFrom(ctKinds).Draw(t, "ctkind")
+			buf, _ = altCiphertext(t, p, kindCt, c, dk)
+			buf = append([]byte{}, buf...)
+		}
+		want := p.PKEDecrypt(dk, buf)
+		pt := buf[off : off+32 : off+32]
+		if !catchRep(t, "C03/panic/"+im.name+"/pke-overlap", desc, func() { sk.DecryptTo(pt, buf) }) {
+			return
+		}
+		if !bytes.Equal(pt, want) {
+			fail("DecryptTo plaintext", pt, want)
+			return
+		}
+	case "unpack-then-overwrite":
+		eb, db := append([]byte{}, ek...), append([]byte{}, dk...)
+		var pk2 pkePub
+		var sk2 pkePriv
+		ct := make([]byte, n)
+		pt := make([]byte, 32)
+		re1 := make([]byte, p.EkSize())
+		re2 := make([]byte, p.DkPKESize())
+		if !catchRep(t, "C03/panic/"+im.name+"/pke-overlap", desc, func() {
+			pk2, sk2 = im.unpackPK(eb), im.unpackSK(db)
+			fill := rapid.SampledFrom([]byte{0x00, 0xff}).Draw(t, "fill")
+			for i := range eb {
+				eb[i] = fill
+			}
+			for i := range db {
+				db[i] = fill
+			}
+			pk2.EncryptTo(ct, m, r)
+			sk2.DecryptTo(pt, c)
+			pk2.Pack(re1)
+			sk2.Pack(re2)
+		}) {
+			return
+		}
+		if !bytes.Equal(ct, c) || !bytes.Equal(pt, p.PKEDecrypt(dk, c)) || !bytes.Equal(re1, ek) || !bytes.Equal(re2, dk) {
+			vlib.Report(t, "C03/pke-overlap/"+im.name+"/"+kind, fmt.Sprintf("%s: after the encodings passed to Unpack were overwritten: EncryptTo equal=%v DecryptTo equal=%v pk.Pack equal=%v sk.Pack equal=%v", desc, bytes.Equal(ct, c), bytes.Equal(pt, p.PKEDecrypt(dk, c)), bytes.Equal(re1, ek), bytes.Equal(re2, dk)))
+			return
+		}
+	case "pack-prefilled":
+		fill := rapid.SampledFrom([]byte{0x00, 0xff, 0xa5}).Draw(t, "fill")
+		eb, db := bytes.Repeat([]byte{fill}, p.EkSize()), bytes.Repeat([]byte{fill}, p.DkPKESize())
+		pk.Pack(eb)
+		sk.Pack(db)
+		if !bytes.Equal(eb, ek) || !bytes.Equal(db, dk) {
+			vlib.Report(t, "C03/pke-overlap/"+im.name+"/"+kind, fmt.Sprintf("%s fill %#x: ek equal=%v dk equal=%v", desc, fill, bytes.Equal(eb, ek), bytes.Equal(db, dk)))
+			return
+		}
+	}
+	vlib.NonTrivial(sub, "pke-overlap-checked", d, m, r, []byte(kind), []byte{byte(off), byte(off >> 8)}, []byte(flavour))
 }
 
 // ---------------------------------------------------------------------------
